@@ -499,20 +499,12 @@ func (c *Ctx) Extract(a *Term, hi, lo uint8) *Term {
 			if a.B.IsConst() && a.C.IsConst() {
 				return c.Ite(a.A, c.Extract(a.B, hi, lo), c.Extract(a.C, hi, lo))
 			}
-		case OpAnd, OpOr, OpXor:
-			if lo == 0 || a.B.IsConst() {
-				return c.bin(a.Op, c.Extract(a.A, hi, lo), c.Extract(a.B, hi, lo))
-			}
-		case OpAdd, OpSub, OpMul:
-			if lo == 0 {
-				return c.bin(a.Op, c.Extract(a.A, hi, 0), c.Extract(a.B, hi, 0))
-			}
 		case OpNeg:
-			if lo == 0 {
+			// only when it exposes a narrower operand (otherwise byte-slicing a
+			// stored word could no longer be folded back by Concat)
+			if lo == 0 && (a.A.Op == OpZExt || a.A.Op == OpSExt) && hi < a.A.A.W {
 				return c.Neg(c.Extract(a.A, hi, 0))
 			}
-		case OpNot:
-			return c.Not(c.Extract(a.A, hi, lo))
 		case OpLShr:
 			// extract(hi,lo, x >> k) = extract(hi+k, lo+k, x) when in range
 			if a.B.IsConst() && uint64(hi)+a.B.V < uint64(a.W) {
